@@ -42,7 +42,7 @@ def run_one(m):
 
 todo = [m for m in muts if not props or m["prop"] in props]
 bad = 0
-with concurrent.futures.ThreadPoolExecutor(max_workers=3) as ex:
+with concurrent.futures.ThreadPoolExecutor(max_workers=4) as ex:
     for m, status, msg in ex.map(run_one, todo):
         print("%-7s %s %s: %s" % (status, m["prop"], m["name"], msg))
         if status != "CAUGHT":
